@@ -55,6 +55,13 @@ CHECKS.update(
         note="Rule table in pvlib/harness/c06.py is the oracle (transcribed from docs/user/nonmult.rst and the property statement). Exact arithmetic; real exp/log accuracy outside; scales assumed > 0.",
         design="4/C06",
     ),
+    C09=dict(
+        text="format(unit/quantity, spec) of the real formatters (D, C, P, H, L, Lx; long and ~) on units with solver-chosen integer exponents (every value in [-3,3]) and symbolic magnitudes rendered as placeholder literals: "
+        "independent per-format layout recognisers require each unit exactly once, on the correct side, with exactly its exponent (omitted iff +-1), parentheses where a single denominator has several terms; "
+        "D/C/P texts (and str(q)) are parsed back by the real parser and proved equal (magnitude equality by z3).",
+        note="Exponent values are enumerated by solver-driven realisation (the number formatter needs concrete integers); content of the numeric mini-language, locale output, Measurement formats and '#' outside.",
+        design="4/C09",
+    ),
     C11=dict(
         text="Conversions under contexts in the real registry on symbolic magnitudes and parameters: for the bundled contexts the result is proved equal to an independent evaluation of the equation text "
         "in default_en.txt (own parser + quantity algebra) along the declared chain; for generated contexts all activation forms (name, alias, object, enable, with, per-call, decorator) and stacks up to 3 "
